@@ -21,11 +21,12 @@ from vlib import core
 from vlib.core import strlit, listlit, natlit
 from translate import c16_fexp, c16_positions
 
-NAMES = ["c", "zz9"]
+NAMES = c16_positions.probe_names()
+RECONF_NAMES = ["MyCol"]        # second pass of the runner: same session, input dialect re-configured
 ORACLE = os.path.join(core.VERIF, "oracle", "c16_pyspark_positions.json")
 PINNED_TABLE = os.path.join(core.VERIF, "translate", "c16_table_pinned.v")
 
-HEADER = """From SF Require Import C16.Fexp.
+HEADER = """From SF Require Import C16.Fexp C16.Known.
 From Gen Require Import C16Table.
 From Coq Require Import String List ZArith Bool. Import ListNotations. Open Scope string_scope. Open Scope bool_scope.
 Definition agree (m r : string) : string := if String.eqb m "U" then "?" else if String.eqb m r then "1" else "0".
@@ -34,13 +35,12 @@ Definition fpflag (v : val) (fp : option (list (string * nat * nat))) : string :
   | None => "-"
   | Some l => if val_unk v || is_err v then "?" else if fp_ok v l then "1" else "0"
   end.
-(* case = (entry, real verdict for the probe name "c", real verdict for "zz9", data-flow fingerprints of the two real
-   trees for "c");  answer = model verdicts, model=implementation flags, fingerprint flags (name form, col form) *)
-Definition check (k : entry * string * string * option (list (string * nat * nat)) * option (list (string * nat * nat))) : string :=
-  let '(e, r1, r2, f1, f2) := k in
-  let m1 := verdict gen_prims gen_table "c" e in
-  let m2 := verdict gen_prims gen_table "zz9" e in
-  m1 ++ m2 ++ agree m1 r1 ++ agree m2 r2
+(* case = (entry, real verdicts for the probe names in order, data-flow fingerprints of the two real trees for "c");
+   answer = model verdicts, model=implementation flags, fingerprint flags (name form, col form) *)
+Definition check (k : entry * list string * option (list (string * nat * nat)) * option (list (string * nat * nat))) : string :=
+  let '(e, rs, f1, f2) := k in
+  let ms := map (fun c => verdict gen_prims gen_table c e) probe_names in
+  String.concat "" ms ++ String.concat "" (map (fun mr : string * string => agree (fst mr) (snd mr)) (combine ms rs))
      ++ fpflag (res_str gen_prims gen_table "c" e) f1 ++ fpflag (res_col gen_prims gen_table "c" e) f2.
 """
 
@@ -149,7 +149,7 @@ def run_engine(engine, vectors):
     env["PYTHONPATH"] = core.VERIF + ":" + core.REPO
     env["PYTHONHASHSEED"] = "0"
     p = subprocess.run([core.PY, "-m", "checks.c16_runner", engine],
-                       input=json.dumps({"names": NAMES, "vectors": vectors}),
+                       input=json.dumps({"names": NAMES, "reconf_names": RECONF_NAMES, "vectors": vectors}),
                        stdout=subprocess.PIPE, stderr=subprocess.PIPE, text=True, env=env, cwd=core.VERIF, timeout=600)
     if p.returncode != 0:
         return None, p.stderr[-2000:]
@@ -205,26 +205,47 @@ def run(ctx: core.Ctx):
     # ---- proofs
     proved = False
     if t1_ok:
-        proved = ctx.prove([ctx.build + "/gen/C16Table.v", ctx.build + "/gen/C16Entries.v", core.COQ + "/props/C16.v"],
-                           dep_theories=["C16/Fexp.v", "C16/Known.v"])
-        # refutations of the listed defects: a separate file, because a defect that gets REPAIRED in /repo makes its
-        # refutation fail, and that must not raise an alarm (the entry then simply stops being reported)
-        ref = core.COQ + "/props/C16_refuted.v"
-        n_ref = core.count_obligations(ref)
-        ctx.obligations += n_ref
-        if core.grep_gate([ref]):
-            ctx.broken("axiom-gate:C16_refuted.v", "; ".join(core.grep_gate([ref])[:3]))
-        else:
-            rc, out, err, dt, cmd = ctx.coqc(ref)
-            ctx.checker_cmds.append(cmd)
-            if rc == 0:
-                ctx.discharged += n_ref
-                for blk in core.parse_assumptions(out):
-                    ctx.assumptions_printed.append("C16_refuted.v: " + blk)
-            else:
-                ctx.log("C16_refuted.v does not compile any more: a listed defect is no longer a counterexample of the "
-                        "model (repaired in the source?) -- not an alarm; " + (err or out)[-300:].replace("\n", " "))
-                ctx.coverage["refutations_no_longer_hold"] = (err or out)[-600:]
+        # per-name instantiation obligations (compiled in parallel; props/C16.v combines them with Fexp.all_ok_cons)
+        ok_files = []
+        for k, cname in enumerate(NAMES):
+            ctx.gen(f"C16Ok{k}", "From SF Require Import C16.Fexp C16.Known.\nFrom Gen Require Import C16Table C16Entries.\n"
+                    "From Coq Require Import String List. Import ListNotations. Open Scope string_scope.\n"
+                    f"(* probe name {k} of Known.probe_names *)\n"
+                    f"Lemma gen_ok_{k} : all_ok gen_prims gen_table [{strlit(cname)}] C16_known gen_entries = true.\n"
+                    "Proof. vm_compute. reflexivity. Qed.\n")
+            ok_files.append(f"{ctx.build}/gen/C16Ok{k}.v")
+        for th in ("C16/Fexp.v", "C16/Known.v"):
+            ok = ctx.prove([], dep_theories=[th])
+        stages = [[ctx.build + "/gen/C16Table.v", ctx.build + "/gen/C16Entries.v"], ok_files,
+                  [core.COQ + "/props/C16.v", core.COQ + "/props/C16_refuted.v"]]
+        proved = not any(b["name"].startswith("theory:") for b in ctx.brokens)
+        for stage in stages:
+            with ThreadPoolExecutor(max_workers=8) as ex:
+                results = list(ex.map(lambda pth: (pth, core.grep_gate([pth]), ctx.coqc(pth, timeout=600)), stage))
+            for pth, gate, (rc, out, err, dt, cmd) in results:
+                base = os.path.basename(pth)
+                n = core.count_obligations(pth)
+                ctx.obligations += n
+                ctx.checker_cmds.append(cmd)
+                if gate:
+                    proved = False
+                    ctx.broken("axiom-gate:" + base, "; ".join(gate[:5]))
+                elif rc == 0:
+                    ctx.discharged += n
+                    for blk in core.parse_assumptions(out):
+                        ctx.assumptions_printed.append(f"{base}: {blk}")
+                elif base == "C16_refuted.v":
+                    # refutations of the listed defects live in their own file: a defect that gets REPAIRED in /repo makes
+                    # its refutation fail, and that must not raise an alarm (the entry simply stops being reported)
+                    ctx.log("C16_refuted.v does not compile any more: a listed defect is no longer a counterexample of the "
+                            "model (repaired in the source?) -- not an alarm; " + (err or out)[-300:].replace("\n", " "))
+                    ctx.coverage["refutations_no_longer_hold"] = (err or out)[-600:]
+                else:
+                    proved = False
+                    ctx.broken("proof:" + base, (err or out)[-2500:])
+                    ctx.log(f"coqc FAILED {pth} ({dt:.1f}s)")
+            if not proved:
+                break
     else:
         ctx.coqc(ctx.build + "/gen/C16Table.v")
     # ---- T3: the real calls.  quick = standalone + duckdb + one rotating engine; thorough = all engines
@@ -270,27 +291,28 @@ def run(ctx: core.Ctx):
         a = real.get(i)
         if a is None or "per_name" not in a:
             continue
-        v1, v2 = (pn["verdict"] for pn in a["per_name"])
+        vs = [pn["verdict"] for pn in a["per_name"]]
         def fp(x):
             if x is None:
                 return "None"
             return "(Some " + listlit([f"({strlit(n)}, {natlit(a_)}, {natlit(b_)})" for n, a_, b_ in x]) + ")"
         pn0 = a["per_name"][0]
-        items.append(f"({entry_coq(ent)}, {strlit(v1)}, {strlit(v2)}, {fp(pn0.get('fp_str'))}, {fp(pn0.get('fp_col'))})")
+        items.append(f"({entry_coq(ent)}, {listlit([strlit(v) for v in vs])}, {fp(pn0.get('fp_str'))}, {fp(pn0.get('fp_col'))})")
         metas.append((i, ent, a))
     res = ctx.cases("c16", HEADER, items, per_file=400, result_ty="str", fn="check")
     hist_real, hist_model, hist_engine, hist_variant = {}, {}, {}, {}
-    hard, soft, undecided, fp_bad, n_fp = [], [], [], [], {}
+    hard, soft, undecided, fp_bad, n_fp, n_reconf = [], [], [], [], {}, {}
     n_nontriv = 0
     for (i, ent, a), r in zip(metas, res):
-        if r is None or len(r) != 6:
+        N = len(NAMES)
+        if r is None or len(r) != 2 * N + 2:
             continue
         f, e, pos, variant, args = ent
         hist_engine[e] = hist_engine.get(e, 0) + 1
         hist_variant[variant] = hist_variant.get(variant, 0) + 1
         for k, cname in enumerate(NAMES):
             pn = a["per_name"][k]
-            rv, mv, ag = pn["verdict"], r[k], r[2 + k]
+            rv, mv, ag = pn["verdict"], r[k], r[N + k]
             hist_real[rv] = hist_real.get(rv, 0) + 1
             hist_model[mv] = hist_model.get(mv, 0) + 1
             desc = {"function": f, "engine": e, "position": pos, "variant": variant, "args": args, "name": cname,
@@ -316,13 +338,29 @@ def run(ctx: core.Ctx):
                     soft.append(desc)
                 else:
                     hard.append(desc)
-        for form, flag in (("name", r[4]), ("col", r[5])):
+        for form, flag in (("name", r[2 * N]), ("col", r[2 * N + 1])):
             if flag == "0":
                 fp_bad.append({"function": f, "engine": e, "position": pos, "variant": variant, "form": form,
                                "call": call_text(f, args, "c", form == "col"),
                                "implementation_tree_counts(name,#col,#lit)": a["per_name"][0].get("fp_str" if form == "name" else "fp_col"),
                                "sqlframe": a["per_name"][0]["str_form" if form == "name" else "col_form"]})
             n_fp[flag] = n_fp.get(flag, 0) + 1
+        for pn in a.get("reconfigured", []):
+            n_reconf[pn["verdict"]] = n_reconf.get(pn["verdict"], 0) + 1
+            if pn["verdict"] in ("D", "R"):
+                ctx.deviation(signature(f, e, pos) + "/after-reconfiguration",
+                              f"{call_text(f, args, pn['name'], False)} on {e} after the session's input dialect was "
+                              f"re-configured (case-sensitive identifiers): " + str(pn["str_form"])[:160]
+                              + "   vs col(): " + str(pn["col_form"])[:120],
+                              {"function": f, "engine": e, "position": pos, "variant": variant, "args": args,
+                               "name": pn["name"], "after_reconfiguration": True,
+                               "call_with_name": call_text(f, args, pn["name"], False),
+                               "call_with_col": call_text(f, args, pn["name"], True),
+                               "sqlframe_with_name": pn["str_form"], "sqlframe_with_col": pn["col_form"],
+                               "implementation_verdict": pn["verdict"],
+                               "history": "all vectors were first called under the default input dialect, then "
+                                          "session.input_dialect = Dialect.get_or_raise('<dialect>, normalization_strategy="
+                                          "case_sensitive') and the vector was called again"})
         if len(args) >= 2:
             n_nontriv += 1
         if len(ctx.samples) < 4 and rnd.random() < 0.002:
@@ -337,14 +375,15 @@ def run(ctx: core.Ctx):
                    f"different number of times than in the model's result; first: {fp_bad[0]['call']} on "
                    f"{fp_bad[0]['engine']}: {fp_bad[0]['sqlframe']}", data=fp_bad[:10])
     with open(os.path.join(ctx.build, "t3_detail.json"), "w") as fh:      # for the developer; not part of the evidence
-        json.dump({"hard": hard, "soft": soft, "undecided": undecided, "fp_bad": fp_bad}, fh, indent=1)
+        json.dump({"hard": hard, "soft": soft, "undecided": undecided, "fp_bad": fp_bad,
+                   "deviations": ctx.deviations}, fh, indent=1)
     und_funcs = sorted({u["function"] for u in undecided})
     opaque_funcs = {k: v["opaque"] for k, v in gen.get("funcs", {}).items() if v.get("opaque")}
     ctx.coverage.update({
         "evaluations": 2 * len(NAMES) * len(items),
         "distinct_nontrivial": n_nontriv,
         "rule": "case = (function, engine, tested position, call vector); every case is called for real in both forms "
-                "(name / col(name)) for 2 probe names; non-trivial = the vector has at least one other argument; distinct "
+                "(name / col(name)) for the probe names of Known.v; non-trivial = the vector has at least one other argument; distinct "
                 "by construction (the table is enumerated, not sampled)",
         "corpus_keys": len(corpus_keys), "corpus_vectors": n_corpus,
         "entries_in_theorem": len(entries), "entries_called": len(items), "engines_called": engines,
@@ -352,6 +391,9 @@ def run(ctx: core.Ctx):
         "histogram_implementation_verdict": hist_real, "histogram_model_verdict": hist_model,
         "verdict_legend": "E same expression, D different expression, R only the name form raises, B the col() form "
                           "raises (property vacuous), U undecided by the model (Opaque construct reached)",
+        "reconfigured_session_pass": {"names": RECONF_NAMES, "verdicts": n_reconf,
+                                       "what": "same session, input dialect switched to case-sensitive normalisation after "
+                                               "the first pass; implementation judged against the property directly"},
         "data_flow_fingerprints": n_fp,
         "data_flow_legend": "per real tree: 1 = every argument occurs as column reference / string literal exactly as often "
                             "as in the model's symbolic result, 0 = not, ? = model result unknown/raises, - = real call raised",
@@ -364,8 +406,8 @@ def run(ctx: core.Ctx):
     if ctx.tier == "thorough":
         revalidate_oracle_live(ctx, rec)
     ctx.assumptions += [
-        "column names are simple identifiers (probe names 'c', 'zz9'): Column('c') (sqlglot.maybe_parse) and col('c') "
-        "(exp.to_column) denote the same column reference",
+        "Column(str) (sqlglot.maybe_parse) and col(str) (exp.to_column) denote the same column reference exactly for plain, "
+        "possibly qualified identifiers; other texts ('event time', 'end-ts') parse as SQL expressions (probe names in Known.v)",
         "every sqlglot constructor/helper, Column method and session helper other than the coercions listed in Fexp.v is a "
         "deterministic injective symbol of its arguments (validated entry by entry by T3: model verdict = real verdict)",
         "the func_metadata wrapper (automatic alias) is a deterministic function of the wrapped result that keeps the expression",
@@ -392,5 +434,10 @@ def replay(ctx: core.Ctx, rp: dict) -> int:
         print("   ", call_text(r["function"], r["args"], pn["name"], True), "->", pn["col_form"])
     print("PySpark 3.5.9 builds the same Column for both forms at this position (oracle/c16_pyspark_positions.json);")
     print("recorded verdict:", r.get("implementation_verdict"), " model:", r.get("model_verdict"))
-    bad = any(pn["verdict"] in ("D", "R") for pn in a.get("per_name", []))
+    for pn in a.get("reconfigured", []):
+        print(f"after re-configuring the session's input dialect to {ans.get('reconfigured_input_dialect')!r}: "
+              f"name {pn['name']!r}: verdict {pn['verdict']}")
+        print("   ", call_text(r["function"], r["args"], pn["name"], False), "->", pn["str_form"])
+        print("   ", call_text(r["function"], r["args"], pn["name"], True), "->", pn["col_form"])
+    bad = any(pn["verdict"] in ("D", "R") for pn in a.get("per_name", []) + a.get("reconfigured", []))
     return 1 if bad else 0
